@@ -468,8 +468,10 @@ impl Checkout {
         let data_len = data.len();
         if start + length > self.available_data()
             || self.inner.position + start + data_len > self.capacity()
+            || self.inner.end + data_len - length > self.capacity()
         {
-            // Rejected replace is a graceful no-op.
+            // Rejected replace is a graceful no-op (last clause: the tail that
+            // follows the replaced span must still fit once it has moved).
             debug_assert_eq!(
                 self.available_data(),
                 data_before,
@@ -1024,6 +1026,19 @@ mod tests {
 
         buf.insert_slice(b"beautiful ", 6);
         assert_eq!(buf.data(), b"hello beautiful world");
+    }
+
+    #[test]
+    fn test_replace_slice_tail_pushed_past_capacity_returns_none() {
+        let mut pool = create_test_pool(8, 2);
+        let mut buf = checkout_with_data(&mut pool, b"abcdefgh");
+        assert_eq!(buf.available_space(), 0);
+
+        // the replacement itself fits (0 + 0 + 5 <= 8) but the 7 bytes that
+        // follow the replaced byte would end at offset 12
+        let result = buf.replace_slice(b"VWXYZ", 0, 1);
+        assert!(result.is_none());
+        assert_eq!(buf.data(), b"abcdefgh");
     }
 
     #[test]
